@@ -5,6 +5,7 @@
 import Logg.Drive.C01
 import Logg.Drive.C11
 import Logg.Drive.C12
+import Logg.Drive.C16
 import Logg.Drive.C17
 
 open Logg
@@ -14,12 +15,14 @@ structure DriverState where
   c11 : List ModeBits := []
   c12 : List (Int × Int) := []
   c17 : Registry := Bridge.genRegistry
+  c16 : Drive.C16.St := {}
 
 def dispatch (st : DriverState) (line : String) : DriverState × String :=
   match (line.splitOn " ").filter (· ≠ "") with
   | "C01" :: rest => let (s, o) := Drive.C01.step st.c01 rest; ({ st with c01 := s }, o)
   | "C11" :: rest => let (s, o) := Drive.C11.step st.c11 rest; ({ st with c11 := s }, o)
   | "C12" :: rest => let (s, o) := Drive.C12.step st.c12 rest; ({ st with c12 := s }, o)
+  | "C16" :: rest => let (s, o) := Drive.C16.step st.c16 rest; ({ st with c16 := s }, o)
   | "C17" :: rest => let (s, o) := Drive.C17.step st.c17 rest; ({ st with c17 := s }, o)
   | "Q" :: rest => (st, Drive.C17.stepQ rest)
   | _ => (st, "bad-op")
